@@ -245,7 +245,7 @@ PROPS = {
         rule="case = one network scenario; non-trivial = at least 2 devices or any process data; distinct by scenario hash",
         assumptions=["MAX_PDI below 64 KiB"],
         min_distinct=dict(quick=200, thorough=20000),
-        required_counters=["device.coe", "device.eeprom", "device.coe+multi-sm", "device.eeprom+multi-sm", "device.eeprom+fmmu_ex", "device.three-sms-one-direction", "device.sm-buffers-not-in-index-order", "device.sm-adjacent-to-non-neighbour", "pdi_too_long_rejected", "windows", "groups_checked"],
+        required_counters=["device.coe", "device.eeprom", "device.coe+multi-sm", "device.eeprom+multi-sm", "device.eeprom+fmmu_ex", "device.three-sms-one-direction", "device.sm-buffers-not-in-index-order", "device.sm-adjacent-to-non-neighbour", "device.sii-sync-manager-types-unknown", "group.does-not-fit-only-once-outputs-are-counted", "pdi_too_long_rejected", "windows", "groups_checked"],
         runs=[native("map-release", "c08", "release"), native("map-debug", "c08", "debug", args={"scale-pct": dict(quick=20, thorough=5)})],
     ),
 
